@@ -19,6 +19,7 @@ import (
 	"time"
 
 	"com.tuntun.rangers/node/src/core"
+	"com.tuntun.rangers/node/src/middleware/db"
 	"com.tuntun.rangers/node/src/middleware/types"
 	"verif/harness/internal/vutil"
 )
@@ -315,6 +316,140 @@ func fresh(root string, n int) {
 	}
 }
 
+// runOp makes one call of a history on the real group chain and returns its trace event (without
+// the projection); skipped = the call would leave the model's bounds.
+func runOp(o op) (ev map[string]interface{}, skipped bool) {
+	gc := core.GetGroupChain()
+	switch o.Op {
+	case "Add":
+		if int(gc.Count()) >= maxCount {
+			return nil, true // stay inside the model's bound
+		}
+		pre := o.Pre
+		if pre == 98 {
+			pre = indexOf(gc.LastGroup().Id)
+		}
+		ev = map[string]interface{}{"event": "Add", "g": o.G, "pre": pre}
+		err := gc.AddGroup(mkGroup(o.G, idOf(pre)))
+		ev["ok"] = err == nil
+	case "Remove":
+		ev = map[string]interface{}{"event": "Remove", "ok": false}
+		if !bytes.Equal(gc.LastGroup().Id, genesis.Id) {
+			ev["ok"] = core.VerifRemoveLastGroup()
+		}
+	case "Fork":
+		ev = map[string]interface{}{"event": "Fork", "g": o.G, "ids": o.Ids, "pres": presOf(o), "ok": false}
+		anc := gc.GetGroupById(idOf(o.G))
+		if anc != nil && int(gc.Count())+len(o.Ids) <= maxCount+2 {
+			branch := []*types.Group{}
+			pre := anc.Id
+			for k, i := range o.Ids {
+				if k < len(o.Pres) && o.Pres[k] != 98 {
+					pre = idOf(o.Pres[k])
+				}
+				g := mkGroup(i, pre)
+				branch = append(branch, g)
+				pre = g.Id
+			}
+			ev["ok"] = core.VerifGroupForkSwitch(anc, branch)
+		}
+	case "Conc":
+		if int(gc.Count()) >= maxCount-1 {
+			return nil, true
+		}
+		ev = map[string]interface{}{"event": "Conc", "g": o.G, "pre": o.Pre, "b": o.B, "first": o.First}
+		okA, okB := concurrent(o)
+		ev["okA"], ev["okB"] = okA, okB
+	case "Restart":
+		core.VerifCloseGroupChain()
+		core.VerifInitGroupChain(helper)
+		ev = map[string]interface{}{"event": "Restart"}
+	default:
+		vutil.Fatalf("unknown op %q", o.Op)
+	}
+	return ev, false
+}
+
+type crashNow struct{}
+
+// crashLast repeats the last call of history h with a process death before its k-th physical
+// write to the group store (k = 1, 2, ... until the call completes with fewer writes), each time
+// over fresh stores with the calls before it replayed, then restarts the chain over the stores
+// the dead call left and records the projection. The death is a panic raised inside the H2 write
+// hook (before the write reaches LevelDB) and caught here: everything the call kept in memory is
+// dropped with the chain object, the stores keep exactly the writes made before the death.
+func crashLast(tr *vutil.Trace, root string, n int, h []op) int {
+	lastOp := h[len(h)-1]
+	if lastOp.Op != "Add" && lastOp.Op != "Remove" && lastOp.Op != "Fork" {
+		return 0
+	}
+	done := 0
+	for k := 1; k <= 40; k++ {
+		fresh(root, 1000000+n*64+k)
+		for _, o := range h[:len(h)-1] {
+			runOp(o)
+		}
+		before := project()
+		tr.Emit(map[string]interface{}{"event": "Reset", "state": before})
+		writes := 0
+		db.VerifOnWrite = func(kind string, key []byte, size int) {
+			if !bytes.HasPrefix(key, []byte("group")) || bytes.HasPrefix(key, []byte("groupFork")) {
+				return
+			}
+			writes++
+			if writes == k {
+				panic(crashNow{})
+			}
+		}
+		var ev map[string]interface{}
+		died := func() (died bool) {
+			defer func() {
+				if r := recover(); r != nil {
+					if _, ok := r.(crashNow); !ok {
+						panic(r)
+					}
+					died = true
+				}
+			}()
+			ev, _ = runOp(lastOp)
+			return false
+		}()
+		db.VerifOnWrite = nil
+		if !died {
+			return done // the call makes fewer than k writes
+		}
+		done++
+		call := map[string]interface{}{"event": "Crash", "call": lastOp.Op, "k": k, "g": lastOp.G, "pre": lastOp.Pre}
+		if lastOp.Op == "Add" && lastOp.Pre == 98 {
+			call["pre"] = before["last"]
+		}
+		if lastOp.Op == "Fork" {
+			call["ids"], call["pres"] = lastOp.Ids, presOf(lastOp)
+		}
+		_ = ev
+		restarted := func() (ok bool) {
+			defer func() {
+				if r := recover(); r != nil {
+					call["panic"] = fmt.Sprint(r)
+					ok = false
+				}
+			}()
+			core.VerifCloseGroupChain()
+			core.VerifInitGroupChain(helper)
+			return true
+		}()
+		if !restarted {
+			call["event"] = "RestartFailed"
+			call["state"] = before
+			tr.Emit(call)
+			continue
+		}
+		call["state"] = project()
+		tr.Emit(call)
+	}
+	return done
+}
+
 func main() {
 	out := flag.String("out", "trace.ndjson", "trace file")
 	script := flag.String("script", "", "JSON file: list of histories (lists of ops) generated by TLC")
@@ -322,6 +457,7 @@ func main() {
 	length := flag.Int("len", 12, "length of a random history")
 	scratch := flag.String("scratch", "", "scratch directory for the stores")
 	salt := flag.Int64("salt", 0, "extra seed salt (shard number)")
+	crash := flag.Bool("crash", false, "after every history: its last call again with a process death before each of its store writes, then a restart")
 	cpuprof := flag.String("cpuprofile", "", "write a CPU profile (debugging the harness)")
 	flag.Parse()
 	if *cpuprof != "" {
@@ -372,67 +508,27 @@ func main() {
 	}
 
 	tr := vutil.NewTrace(outAbs)
-	calls := 0
+	calls, crashes := 0, 0
 	for n, h := range histories {
 		fresh(*scratch, n)
 		tr.Emit(map[string]interface{}{"event": "Reset", "state": project()})
 		for _, o := range h {
-			gc := core.GetGroupChain()
-			switch o.Op {
-			case "Add":
-				if int(gc.Count()) >= maxCount {
-					continue // stay inside the model's bound
-				}
-				pre := o.Pre
-				if pre == 98 {
-					pre = indexOf(gc.LastGroup().Id)
-				}
-				err := gc.AddGroup(mkGroup(o.G, idOf(pre)))
-				tr.Emit(map[string]interface{}{"event": "Add", "g": o.G, "pre": pre, "ok": err == nil, "state": project()})
-			case "Remove":
-				ok := false
-				if !bytes.Equal(gc.LastGroup().Id, genesis.Id) {
-					ok = core.VerifRemoveLastGroup()
-				}
-				tr.Emit(map[string]interface{}{"event": "Remove", "ok": ok, "state": project()})
-			case "Fork":
-				anc := gc.GetGroupById(idOf(o.G))
-				ok := false
-				if anc != nil && int(gc.Count())+len(o.Ids) <= maxCount+2 {
-					branch := []*types.Group{}
-					pre := anc.Id
-					for k, i := range o.Ids {
-						if k < len(o.Pres) && o.Pres[k] != 98 {
-							pre = idOf(o.Pres[k])
-						}
-						g := mkGroup(i, pre)
-						branch = append(branch, g)
-						pre = g.Id
-					}
-					ok = core.VerifGroupForkSwitch(anc, branch)
-				}
-				tr.Emit(map[string]interface{}{"event": "Fork", "g": o.G, "ids": o.Ids, "pres": presOf(o), "ok": ok, "state": project()})
-			case "Conc":
-				if int(gc.Count()) >= maxCount-1 {
-					continue
-				}
-				okA, okB := concurrent(o)
-				tr.Emit(map[string]interface{}{"event": "Conc", "g": o.G, "pre": o.Pre, "b": o.B, "first": o.First,
-					"okA": okA, "okB": okB, "state": project()})
-			case "Restart":
-				core.VerifCloseGroupChain()
-				core.VerifInitGroupChain(helper)
-				tr.Emit(map[string]interface{}{"event": "Restart", "state": project()})
-			default:
-				vutil.Fatalf("unknown op %q", o.Op)
+			ev, skipped := runOp(o)
+			if skipped {
+				continue
 			}
+			ev["state"] = project()
+			tr.Emit(ev)
 			calls++
 		}
 		if n%3 == 0 {
 			lk, bad, smp := concurrentLookups()
 			tr.Emit(map[string]interface{}{"event": "Readers", "lookups": lk, "mismatches": bad, "sample": smp, "state": project()})
 		}
+		if *crash && len(h) > 0 {
+			crashes += crashLast(tr, *scratch, n, h)
+		}
 	}
 	tr.Close()
-	fmt.Printf("c19: histories=%d calls=%d events=%d\n", len(histories), calls, tr.N)
+	fmt.Printf("c19: histories=%d calls=%d crashes=%d events=%d\n", len(histories), calls, crashes, tr.N)
 }
